@@ -289,7 +289,8 @@ Example C23_negation_nonvacuous :
   List.length (ex_sem (with_comp ex_plain (add_filter 1 (ex_name_eq "x") (q_comp ex_plain)))) = 3%nat /\
   List.length (ex_sem (with_comp ex_plain (add_filter 1 (negate_filter (ex_name_eq "x")) (q_comp ex_plain)))) = 2%nat.
 Proof.
-  repeat split; try (vm_compute; reflexivity).
+  split; [reflexivity|]. split; [reflexivity|]. split; [reflexivity|]. split; [reflexivity|].
+  split; [|split; vm_compute; reflexivity].
   apply equals_filter_no_panic; [now left| |reflexivity].
   apply ds_props_wf_ok. reflexivity.
 Qed.
